@@ -591,6 +591,9 @@ func mutateJSON(js []byte, k int, seed uint64) []byte {
 	}
 	rng := simrt.NewRng(simrt.Derive(seed, uint64(k), 77))
 	out := append([]byte{}, js...)
+	if k >= 7 {
+		return mutateTree(out, rng)
+	}
 	if k >= 6 {
 		// the proto (snake_case) spelling of the first camelCase key: not a J5 JSON name
 		if m := camelKey.FindSubmatchIndex(out); m != nil {
@@ -634,16 +637,118 @@ func mutateJSON(js []byte, k int, seed uint64) []byte {
 	}
 }
 
+// mutateTree applies one or two structural changes at seeded positions of the
+// JSON document: every decoder path that rejects (or tolerates) a value of
+// the wrong shape is reachable this way.
+func mutateTree(js []byte, rng *simrt.Rng) []byte {
+	dec := json.NewDecoder(bytes.NewReader(js))
+	dec.UseNumber()
+	var doc interface{}
+	if err := dec.Decode(&doc); err != nil {
+		return append([]byte(`{"zzUnknownKey":1,`), js[1:]...)
+	}
+	// collect the addressable nodes in a deterministic (sorted key) order
+	type slot struct {
+		get func() interface{}
+		set func(interface{})
+		del func()
+	}
+	var slots []slot
+	var walk func(v interface{}, depth int)
+	walk = func(v interface{}, depth int) {
+		switch t := v.(type) {
+		case map[string]interface{}:
+			keys := make([]string, 0, len(t))
+			for k := range t {
+				keys = append(keys, k)
+			}
+			sort.Strings(keys)
+			for _, k := range keys {
+				k := k
+				slots = append(slots, slot{
+					get: func() interface{} { return t[k] },
+					set: func(n interface{}) { t[k] = n },
+					del: func() { delete(t, k) },
+				})
+				walk(t[k], depth+1)
+			}
+		case []interface{}:
+			for i := range t {
+				i := i
+				slots = append(slots, slot{
+					get: func() interface{} { return t[i] },
+					set: func(n interface{}) { t[i] = n },
+					del: func() { t[i] = nil },
+				})
+				walk(t[i], depth+1)
+			}
+		}
+	}
+	walk(doc, 0)
+	if len(slots) == 0 {
+		return []byte(`{"zzUnknownKey":1}`)
+	}
+	n := 1 + rng.Intn(2)
+	for i := 0; i < n; i++ {
+		sl := slots[rng.Intn(len(slots))]
+		cur := sl.get()
+		switch rng.Intn(12) {
+		case 0:
+			sl.set(nil)
+		case 1:
+			sl.set(json.Number("12345678901234567890123"))
+		case 2:
+			sl.set("zz-not-a-value")
+		case 3:
+			sl.set(true)
+		case 4:
+			sl.set(map[string]interface{}{})
+		case 5:
+			sl.set([]interface{}{})
+		case 6:
+			sl.set([]interface{}{cur, cur})
+		case 7:
+			sl.set(map[string]interface{}{"zzWrapped": cur})
+		case 8:
+			sl.del()
+		case 9:
+			sl.set(json.Number("-1.5e3"))
+		case 10:
+			if s, ok := cur.(string); ok {
+				sl.set(s + "\u0000\ufffd ") // still a string, rarely still valid for its format
+			} else {
+				sl.set("")
+			}
+		default:
+			if m, ok := cur.(map[string]interface{}); ok {
+				m["zzUnknownKey"] = 1
+				m["!type"] = "zz.no.such.v1.Type"
+			} else {
+				sl.set(map[string]interface{}{"!type": "zz.no.such.v1.Type", "value": cur})
+			}
+		}
+	}
+	b, err := json.Marshal(doc)
+	if err != nil {
+		return js
+	}
+	return b
+}
+
 func buildQuery(m protoreflect.Message, mutate int, seed uint64) url.Values {
 	q := url.Values{}
 	rng := simrt.NewRng(simrt.Derive(seed, 0x71))
 	fields := m.Descriptor().Fields()
+	var scalars, containers []string
 	for i := 0; i < fields.Len() && len(q) < 3; i++ {
 		fd := fields.Get(i)
 		if fd.IsMap() || !m.Has(fd) || fd.ContainingOneof() != nil {
 			continue
 		}
 		name := fd.JSONName()
+		if rng.Bool(0.2) {
+			name = string(fd.Name()) // the query decoder accepts the snake_case spelling too
+		}
 		switch {
 		case fd.IsList():
 			if fd.Kind() == protoreflect.StringKind || fd.Kind() == protoreflect.Int32Kind {
@@ -653,20 +758,72 @@ func buildQuery(m protoreflect.Message, mutate int, seed uint64) url.Values {
 				}
 			}
 		case fd.Kind() == protoreflect.MessageKind:
-			if rng.Bool(0.5) {
-				js, err := safeEncode(codec.NewCodec(), m.Get(fd).Message())
+			sub := m.Get(fd).Message()
+			switch rng.Intn(4) {
+			case 0, 1:
+				js, err := safeEncode(codec.NewCodec(), sub)
 				if err == nil {
 					q.Set(name, string(js))
+					containers = append(containers, name)
+				}
+			case 2:
+				// dotted paths to the scalar members of the nested message
+				sf := sub.Descriptor().Fields()
+				for j := 0; j < sf.Len() && len(q) < 4; j++ {
+					sfd := sf.Get(j)
+					if sfd.IsList() || sfd.IsMap() || sfd.ContainingOneof() != nil || !sub.Has(sfd) {
+						continue
+					}
+					switch sfd.Kind() {
+					case protoreflect.StringKind, protoreflect.Int32Kind, protoreflect.Int64Kind, protoreflect.BoolKind, protoreflect.Uint32Kind, protoreflect.Uint64Kind:
+						q.Set(name+"."+sfd.JSONName(), sub.Get(sfd).String())
+					}
 				}
 			}
 		case fd.Kind() == protoreflect.EnumKind:
 			q.Set(name, string(fd.Enum().Values().ByNumber(m.Get(fd).Enum()).Name()))
+			scalars = append(scalars, name)
 		case fd.Kind() == protoreflect.BytesKind:
 		default:
 			q.Set(name, m.Get(fd).String())
+			scalars = append(scalars, name)
 		}
 	}
-	if mutate != 0 {
+	pick := func(l []string) string {
+		if len(l) == 0 {
+			return ""
+		}
+		return l[rng.Intn(len(l))]
+	}
+	switch mutate {
+	case 0:
+	case 2: // two values for a single-valued field
+		if k := pick(scalars); k != "" {
+			q.Add(k, q.Get(k))
+		} else {
+			q.Set("zzNoSuchField", "1")
+		}
+	case 3: // a value the field's type rejects
+		if k := pick(scalars); k != "" {
+			q.Set(k, "zz-not-a-value-\xff")
+		} else {
+			q.Set("zzNoSuchField", "1")
+		}
+	case 4: // a path through something that is not a container, or to a member that does not exist
+		if k := pick(scalars); k != "" && rng.Bool(0.5) {
+			q.Set(k+".x", "1")
+		} else if k := pick(containers); k != "" {
+			q.Set(k+".zzNoSuchField", "1")
+		} else {
+			q.Set("zzNoSuchField.x", "1")
+		}
+	case 5, 7, 8, 9: // malformed JSON for a nested message
+		if k := pick(containers); k != "" {
+			q.Set(k, string(mutateJSON([]byte(q.Get(k)), mutate, seed)))
+		} else {
+			q.Set("zzNoSuchField", "1")
+		}
+	default:
 		q.Set("zzNoSuchField", "1")
 	}
 	return q
@@ -905,7 +1062,7 @@ func genWorkload(seed uint64, deep bool) *Workload {
 			}
 		}
 		if (op.Kind == "decode" || op.Kind == "query" || op.Kind == "decode_any") && rng.Bool(0.2) {
-			op.Mutate = 1 + rng.Intn(6) // failing operation by construction
+			op.Mutate = 1 + rng.Intn(9) // (usually) failing operation by construction; 7..9 are seeded tree mutations
 		}
 		if (op.Kind == "encode" || op.Kind == "encode_any" || op.Kind == "walk") && rng.Bool(0.12) {
 			op.Poison = 1 + rng.Intn(2) // failing encode: fails after part of the output was written
